@@ -18,6 +18,7 @@ import (
 	"github.com/samber/lo"
 	"golang.org/x/net/websocket"
 
+	"github.com/fatedier/frp/pkg/config/types"
 	v1 "github.com/fatedier/frp/pkg/config/v1"
 	netpkg "github.com/fatedier/frp/pkg/util/net"
 
@@ -173,6 +174,10 @@ func runCell(c cell) (viol []string, inconclusive string) {
 	tcp := &v1.TCPProxyConfig{}
 	tcp.Name, tcp.Type, tcp.LocalIP, tcp.LocalPort, tcp.RemotePort = "t", "tcp", "127.0.0.1", be.Port, remote
 	tcp.Transport.UseEncryption, tcp.Transport.UseCompression = c.Enc, c.Comp
+	// a (generous) bandwidth limit puts one more wrapper around the stream on one side: enforced by the server in the
+	// cells with stream multiplexing, by the client in the others
+	tcp.Transport.BandwidthLimit, _ = types.NewBandwidthQuantity("50MB")
+	tcp.Transport.BandwidthLimitMode = map[bool]string{true: "server", false: "client"}[c.Mux]
 	st := &v1.STCPProxyConfig{}
 	st.Name, st.Type, st.LocalIP, st.LocalPort, st.Secretkey = "s", "stcp", "127.0.0.1", be.Port, skMarker
 	st.Transport.UseEncryption, st.Transport.UseCompression = c.Enc, c.Comp
